@@ -351,12 +351,12 @@ func Verif_C02_B67_Step() {
 	s := c03Shape()
 	k := vsym.Choose("step", 19)
 	s.SimplePr = false
+	s.RichOne = true
 	if vsym.Thorough() {
-		c02LogShape(&s)
+		c02LogShape(&s) // logs up to 2 stored + 1 unstable, symbolic snapshot index
 	} else {
 		c01LogShape(&s, true)
 		s.ConcIdx = true
-		s.RichOne = true
 	}
 	v := vMkRaft(s)
 	r := v.r
